@@ -12,7 +12,8 @@ LEVEL = "exploration"
 RULE = ("fall-back pre-populated with 1-6 entries of a 9-key universe (files, nested directories, empty directories); "
         "seeded random well-formed histories of 8-30 operations through the overlay (store, both metadata-update styles, "
         "remove, makedir, empty and recursive removedir, re-creation after removal); memory and directory stores in either "
-        "role (4 combinations). Evaluations = operations applied; a history is non-trivial when it touches a key present in "
+        "role (4 combinations); after each history every key is opened for writing through the overlay's file-handle interface "
+        "and the fall-back snapshot compared again. Evaluations = operations applied; a history is non-trivial when it touches a key present in "
         "the fall-back; distinct = distinct (combination, fall-back content, history).")
 ASSUMPTIONS = ["a removed key may read as 'raises' or as None (both are absence)",
                "well-formed histories only (model preconditions on the expected view)"]
